@@ -208,6 +208,8 @@ class Engine:
         self.obligations = {}     # key -> Oblig (worst status over contexts)
         self.assumed_total = set()
         self.once_cache = {}
+        self.once_inits = set()
+        self.constant_ctx = set()
         self.depth = 0
 
     # -------- contexts
@@ -257,13 +259,23 @@ class Engine:
             self.summary(path, args)
             self.mark_live(path, args)
         i = 0
-        while i < len(self.live):
-            path, args = self.live[i]
-            i += 1
-            c = self.ctx(path, args)
-            if not c.solved:
-                self.summary(path, args)
-            c.check_obligations()
+        done_inits = set()
+        while True:
+            while i < len(self.live):
+                path, args = self.live[i]
+                i += 1
+                c = self.ctx(path, args)
+                if not c.solved:
+                    self.summary(path, args)
+                c.check_obligations()
+            # initialisers of once-cells touched so far: argument-free, hence input-independent contexts
+            new = [p for p in self.once_inits if p not in done_inits]
+            if not new:
+                break
+            for p in new:
+                done_inits.add(p)
+                self.constant_ctx.add((p, ()))
+                self.mark_live(p, ())
         return self.obligations
 
     def once_value(self, init_path):
@@ -271,8 +283,70 @@ class Engine:
         if init_path not in self.once_cache:
             self.once_cache[init_path] = TOP
             self.once_cache[init_path] = self.summary(init_path, ())
-            self.mark_live(init_path, ())
+            self.once_inits.add(init_path)
         return self.once_cache[init_path]
+
+    # -------- struct field invariants (join over every construction / assignment site in the crate)
+    def unique_fields(self):
+        if not hasattr(self, "_ufields"):
+            seen = {}
+            for ap, adt in self.facts.adts.items():
+                if adt["kind"] != "Struct":
+                    continue
+                for f in adt["variants"][0]["fields"]:
+                    seen.setdefault(f["name"], []).append((ap, f["ty"]))
+            self._ufields = {n: v[0] for n, v in seen.items() if len(v) == 1 and not n.isdigit()}
+            self._finv = {}
+        return self._ufields
+
+    def field_invariant(self, name):
+        """abstract value of struct field `name` valid for every instance built by this crate, or None"""
+        uf = self.unique_fields()
+        if name not in uf:
+            return None
+        if name in self._finv:
+            return self._finv[name]
+        adt_path, fty = uf[name]
+        self._finv[name] = top_of_type(fty, self.facts)   # recursion guard
+        out = BOT
+        nsites = 0
+        for path, f in self.facts.fns.items():
+            if f["kind"] not in ("Fn", "AssocFn", "Closure"):
+                continue
+            sites = []
+            for bi, b in enumerate(f["blocks"]):
+                if b["cleanup"]:
+                    continue
+                for i, st in enumerate(b["stmts"]):
+                    if st["k"] != "assign":
+                        continue
+                    rv = st["rv"]
+                    if rv["k"] == "aggregate" and rv.get("agg") == "adt" and rv.get("adt") == adt_path and name in rv.get("fields", []):
+                        sites.append((bi, i, rv["ops"][rv["fields"].index(name)], None))
+                    pr = st["place"]["proj"]
+                    if pr and pr[-1]["k"] == "field" and pr[-1].get("name") == name and pr[-1].get("adt") == adt_path:
+                        sites.append((bi, i, None, rv))
+            if not sites:
+                continue
+            c = self.ctx(path, self.default_args(path))
+            if not c.solved:
+                self.summary(path, c.args)
+            for bi, i, op, rv in sites:
+                if bi not in c.ft.cfg.reach:
+                    continue
+                t = c.ft.operand(op, bi, i) if op is not None else c.ft.rvalue(rv, bi, i)
+                # field-wise copies of an existing instance keep the invariant
+                x = t
+                while x[0] in ("ref", "deref") or (x[0] == "call" and isinstance(x[1], str) and x[1].endswith("::clone") and x[2]):
+                    x = x[2] if x[0] == "ref" else (x[1] if x[0] == "deref" else x[2][0])
+                if x[0] == "field" and x[2] == name:
+                    continue
+                nsites += 1
+                out = join(out, c.av(t, bi))
+        if nsites == 0 or out[0] in ("b", "t"):
+            out = top_of_type(fty, self.facts)
+        self._finv[name] = out
+        return out
 
     def record(self, ob):
         old = self.obligations.get(ob.key)
@@ -423,6 +497,47 @@ class FnCtx:
         self._facts_memo[key] = out
         return out
 
+    def ne_facts_at(self, b, edge=None):
+        """disequalities (atom, value) known at block b: from `x != c` edges and switch-otherwise edges"""
+        key = ("ne", b, edge)
+        if key in self._facts_memo:
+            return self._facts_memo[key]
+        self._facts_memo[key] = []
+        out = []
+        conds = list(self.ft.conditions(b))
+        if edge is not None:
+            p, bb = edge
+            t = self.ft.blocks[p]["term"]
+            if t["k"] == "switch":
+                vals, other = switch_edge_values(t, bb)
+                excl = [int(x) for x, b2 in t["targets"] if b2 != bb]
+                conds.append((self.ft.switch_term(p), vals, other, excl, p))
+        for d, vals, other, excl, sb in conds:
+            truth = None
+            if not other and vals:
+                truth = True if all(v != 0 for v in vals) else (False if vals == [0] else None)
+            elif other and 0 in excl and not vals:
+                truth = True
+            if d[0] == "un" and d[1] == "Not" and truth is not None and d[2][0] == "bin":
+                d = d[2]
+                truth = not truth
+            if d[0] == "bin" and d[1] in ("Eq", "Ne") and truth is not None:
+                is_ne = (d[1] == "Ne") == truth
+                if is_ne:
+                    for x, y in ((d[2], d[3]), (d[3], d[2])):
+                        v = const_int(y) if is_const(y) else None
+                        if v is None:
+                            yv = self._av_nofacts(y) if isinstance(y, tuple) else None
+                            if yv is not None and yv[0] == "i" and yv[1] == yv[2]:
+                                v = yv[1]
+                        if v is not None:
+                            out.append((self.atom(x, sb), v))
+            elif other and excl and not (d[0] == "bin" and d[1] in CMP):
+                for v in excl:
+                    out.append((self.atom(d, sb), v))
+        self._facts_memo[key] = out
+        return out
+
     def cond_facts(self, d, vals, other, excl, sb):
         """linear facts (coef dict, const) meaning sum + const <= 0, from one taken switch edge"""
         out = []
@@ -462,8 +577,51 @@ class FnCtx:
                     out.append((diff, k))
                     out.append((neg, -k))
             return out
+        if d[0] == "call" and isinstance(d[1], str) and d[1].endswith("::contains") and "ops::Range" in d[1] and truth and len(d[2]) == 2:
+            rng, x = d[2]
+            from .query import resolve_promoted
+            for _ in range(6):
+                while rng[0] in ("ref", "deref"):
+                    rng = rng[2] if rng[0] == "ref" else rng[1]
+                if rng[0] == "promoted":
+                    rng = resolve_promoted(self.facts, rng)
+                else:
+                    break
+            while x[0] == "ref" or (x[0] == "deref"):
+                x = x[2] if x[0] == "ref" else x[1]
+            lo = hi = None
+            incl = False
+            if rng[0] == "agg" and rng[2].startswith("std::ops::Range::") and len(rng[3]) == 2:
+                lo, hi = rng[3]
+            elif rng[0] == "call" and isinstance(rng[1], str) and rng[1].endswith("RangeInclusive::new") and len(rng[2]) == 2:
+                lo, hi = rng[2]
+                incl = True
+            if lo is not None:
+                lx, ll, lh = self.linear(x, sb), self.linear(lo, sb), self.linear(hi, sb)
+                if lx and ll and lh:
+                    co = dict(ll[0])
+                    for a, c_ in lx[0].items():
+                        co[a] = co.get(a, 0) - c_
+                    out.append((co, ll[1] - lx[1]))            # lo - x <= 0
+                    co = dict(lx[0])
+                    for a, c_ in lh[0].items():
+                        co[a] = co.get(a, 0) - c_
+                    out.append((co, lx[1] - lh[1] + (0 if incl else 1)))   # x - hi (+1) <= 0
+            return out
+        if d[0] == "call" and isinstance(d[1], str) and d[1].endswith("::is_empty") and truth is not None and len(d[2]) == 1:
+            site = d[3][1] if len(d) > 3 and d[3] else sb
+            la = self.len_atom(d[2][0], site)
+            if la is not None:
+                if truth:
+                    out.append(({la: 1}, 0))
+                else:
+                    out.append(({la: -1}, 1))
+            return out
         if d[0] == "un" and d[1] == "Not" and truth is not None:
-            return self.cond_facts(d[2], [0] if truth else [], not truth, [0] if not truth else [], sb) if False else out
+            # Not(x) true  <=> x == 0 ; Not(x) false <=> x != 0
+            if truth:
+                return self.cond_facts(d[2], [0], False, [], sb)
+            return self.cond_facts(d[2], [], True, [0], sb)
         # plain integer switch on a term
         la = self.linear(d, sb)
         if la is not None and (self.ft.tyof(d) or "") not in ("f64", "f32"):
@@ -658,6 +816,9 @@ class FnCtx:
                 return ("param", x[1])
             if x[0] == "field" and x[1][0] == "deref" and x[1][1][0] == "param":
                 return ("param", x[1][1][1], x[2])
+            if x[0] == "call" and isinstance(x[1], str) and (self.ft.tyof(x) or "").startswith("&") and not any(y[0] == "escaped" for y in walk(x)):
+                # a reference returned by a call: the object behind it is identified by the call itself (same site)
+                return ("callref", x)
             return None
         return None
 
@@ -691,19 +852,63 @@ class FnCtx:
         r = self._av(t, at, edge)
         if r[0] == "i":
             r = self.refine_int(t, r, at, edge)
+        elif at is not None and r[0] in ("s", "r") and (self.facts_at(at, edge) or self.ne_facts_at(at, edge)):
+            r = self.refine_struct(t, r, at, edge)
         self.memo[key] = r
         return r
+
+    def refine_struct(self, t, r, at, edge):
+        """push facts about `t.field` into the struct value of t (one level, integer fields)"""
+        if r[0] == "r":
+            base = t[2] if t[0] == "ref" else ("deref", t)
+            inner = self.refine_struct(base, r[1], at, edge) if r[1][0] == "s" else r[1]
+            return ("r", inner)
+        if r[0] != "s":
+            return r
+        out = []
+        changed = False
+        for name, v in r[1]:
+            if v[0] == "i":
+                nv = self.refine_int(("field", t, name), v, at, edge)
+                changed = changed or nv != v
+                out.append((name, nv))
+            else:
+                out.append((name, v))
+        return ("s", tuple(out)) if changed else r
 
     def refine_int(self, t, r, at, edge):
         if at is None:
             return r
         fs = self.facts_at(at, edge)
-        if not fs:
+        if not fs and not self.ne_facts_at(at, edge):
             return r
         a = self.atom(t, at) if t[0] not in ("const",) else None
         if a is None:
             return r
         lo, hi = r[1], r[2]
+        if t[0] in ("bin", "cast") and not getattr(self, "_in_lin", False):
+            self._in_lin = True
+            try:
+                lf = self._lin(t, at, 0)
+            finally:
+                self._in_lin = False
+            if lf[0] and not (len(lf[0]) == 1 and list(lf[0].values()) == [1] and lf[1] == 0 and a in lf[0]):
+                # facts whose coefficient vector is proportional to the term's linear form bound the term directly
+                for co, k in fs:
+                    if set(co) != set(lf[0]):
+                        continue
+                    x0 = next(iter(co))
+                    m = Fraction(co[x0], lf[0][x0])
+                    if all(Fraction(co[x], lf[0][x]) == m for x in co):
+                        # m*(t - lf.k) + k <= 0
+                        bound = Fraction(-k, 1) / m + lf[1]
+                        if m > 0:
+                            hi = min(hi, math.floor(bound))
+                        else:
+                            lo = max(lo, math.ceil(bound))
+                if lo > hi:
+                    return r
+                return I(lo, hi)
         for co, k in fs:
             c = co.get(a)
             if not c:
@@ -730,6 +935,17 @@ class FnCtx:
                 import math as _m
                 val = Fraction(bound, c)
                 lo = max(lo, _m.ceil(val))
+        nes = [nv for na, nv in self.ne_facts_at(at, edge) if na == a]
+        ch = True
+        while ch and nes:
+            ch = False
+            for nv in nes:
+                if lo == nv:
+                    lo += 1
+                    ch = True
+                if hi == nv:
+                    hi -= 1
+                    ch = True
         if lo > hi:
             return r  # contradictory facts: dead code; keep the unrefined value
         return I(lo, hi)
@@ -737,7 +953,7 @@ class FnCtx:
     def atom_range(self, a, at):
         """interval of an atom without using facts (avoids circularity)"""
         if a and a[0] == "L":
-            return (0, MAXLEN)
+            return self.len_atom_range(a)
         if isinstance(a, tuple) and a and isinstance(a[0], str):
             try:
                 v = self._av_nofacts(a)
@@ -758,6 +974,12 @@ class FnCtx:
 
     def top_for(self, t):
         return top_of_type(self.ft.tyof(t), self.facts)
+
+    def is_live(self):
+        return (self.path, self.args) in self.eng.live_set
+
+    def depth_ok(self):
+        return self.eng.depth < 30
 
     def _av(self, t, at, edge):
         tag = t[0]
@@ -783,6 +1005,10 @@ class FnCtx:
         if tag == "phi":
             if t[1] != self.path:
                 return self.top_for(t)
+            if self.fn["locals"][t[3]]["ty"].startswith("std::vec::Vec<"):
+                v = self.vec_local_av(t[3], at)
+                if v is not None:
+                    return v
             if t not in self.phi:
                 self.phi[t] = BOT
                 self.seen_phis.append(t)
@@ -820,11 +1046,33 @@ class FnCtx:
             if a[0] == "s":
                 v = sget(a, t[2])
                 if v is not None:
-                    return v
+                    inv = self.eng.field_invariant(t[2]) if isinstance(t[2], str) and self.depth_ok() else None
+                    return meet(v, inv) if inv is not None and inv[0] == v[0] else v
             if a[0] == "b":
                 return BOT
+            if a[0] in ("f", "i") and str(t[2]) == "0":
+                return a  # newtype wrapper flattened by the constant decoder
+            inv = self.eng.field_invariant(t[2]) if isinstance(t[2], str) else None
+            if inv is not None:
+                return inv
             return self.top_for(t)
         if tag == "ovf":
+            inner = t[1]
+            if inner[0] == "bin" and self.exact_bin(inner, at):
+                return I(0, 0)
+            if inner[0] == "bin" and at is not None:
+                # relational: both type bounds by linear facts
+                tr = int_range(self.ft.tyof(inner[2]) or "")
+                op = inner[1]
+                if tr and (op.startswith("Add") or op.startswith("Sub")):
+                    la, lb = self._lin(inner[2], at, 0), self._lin(inner[3], at, 0)
+                    s_ = 1 if op.startswith("Add") else -1
+                    co = dict(la[0])
+                    for x, c_ in lb[0].items():
+                        co[x] = co.get(x, 0) + s_ * c_
+                    k = la[1] + s_ * lb[1]
+                    if self.prove((co, k - tr[1]), at, edge) and self.prove(({x: -c_ for x, c_ in co.items()}, tr[0] - k), at, edge):
+                        return I(0, 0)
             return I(0, 1)
         if tag == "payload":
             return self.av_payload(t, at, edge)
@@ -876,6 +1124,10 @@ class FnCtx:
             return R(TOP)
         if tag in ("escaped", "unknown", "uninit"):
             if tag == "escaped":
+                if self.fn["locals"][t[1]]["ty"].startswith("std::vec::Vec<"):
+                    v = self.vec_local_av(t[1], at)
+                    if v is not None:
+                        return v
                 return top_of_type(self.fn["locals"][t[1]]["ty"], self.facts)
             return self.top_for(t)
         return self.top_for(t)
@@ -962,6 +1214,10 @@ class FnCtx:
                             return I(1, 1)
                         if self.prove(gf, at, edge):
                             return I(0, 0)
+                    if op in ("Eq", "Ne"):
+                        # a != b when a < b or a > b is provable
+                        if self.prove((diff, k + 1), at, edge) or self.prove((neg, -k + 1), at, edge):
+                            return I(0, 0) if op == "Eq" else I(1, 1)
             return I(0, 1)
         if a[0] == "f" or b[0] == "f" or ty in ("f64", "f32"):
             fa = a if a[0] == "f" else FTOP
@@ -1079,6 +1335,10 @@ class FnCtx:
             if x[0] == "call" and isinstance(x[1], str) and x[2]:
                 n = x[1]
                 short = n.split("::")[-1]
+                if short == "take" and len(x[2]) == 2:
+                    ad.append(("take", x[2][1]))
+                    x = peel(x[2][0])
+                    continue
                 if short in ("into_iter", "iter", "iter_mut", "enumerate", "rev", "copied", "cloned", "by_ref"):
                     ad.append(short)
                     x = peel(x[2][0]) if short not in ("iter", "iter_mut") else x[2][0]
@@ -1129,6 +1389,11 @@ class FnCtx:
         if "enumerate" in ad:
             ln = bav[1] if bav[0] == "v" else I(0, MAXLEN)
             idx = I(0, max(ln[2] - 1, 0)) if ln[0] == "i" else I(0, MAXLEN)
+            for a_ in ad:
+                if isinstance(a_, tuple) and a_[0] == "take" and ad.index(a_) < ad.index("enumerate"):
+                    tk = self.av(a_[1], None)
+                    if tk[0] == "i":
+                        idx = I(0, max(0, min(idx[2], tk[2] - 1)))
             second = ev if ev is not None else (sget(top, "1") or TOP)
             return S({"0": idx, "1": second}), []
         return (ev if ev is not None else top), []
@@ -1227,6 +1492,18 @@ class FnCtx:
                         atoms |= set(fc)
                         changed = True
         cons = list(rel)
+        for a in list(atoms):
+            # x % n < n and x % n <= x for unsigned operands (n = 0 is a separate obligation)
+            if isinstance(a, tuple) and a and a[0] == "bin" and a[1] == "Rem":
+                ln = self.linear(a[3], at)
+                xa = self._av_nofacts(a[2])
+                if ln is not None and xa[0] == "i" and xa[1] >= 0:
+                    co = {a: 1}
+                    for x_, c_ in ln[0].items():
+                        co[x_] = co.get(x_, 0) - c_
+                        atoms.add(x_)
+                    cons.append((co, 1 - ln[1]))
+                    cons.append(({a: -1}, 0))
         for a in atoms:
             r = self.atom_range(a, at)
             if r is not None:
@@ -1238,9 +1515,31 @@ class FnCtx:
             return False
         return fm_infeasible(cons)
 
+    def len_atom_range(self, a):
+        v = None
+        try:
+            if a[1] == "callref":
+                v = self._av_nofacts(a[2])
+            elif a[1] == "param" and len(a) == 3:
+                v = self.args[a[2] - 1] if a[2] - 1 < len(self.args) else None
+            elif a[1] == "param" and len(a) == 4:
+                base = self.args[a[2] - 1] if a[2] - 1 < len(self.args) else None
+                if base is not None:
+                    base = base[1] if base[0] == "r" else base
+                    v = sget(base, a[3]) if base[0] == "s" else None
+            elif isinstance(a[1], str) and a[1].startswith("_") and a[1][1:].isdigit():
+                v = self.vec_local_av(int(a[1][1:]), None)
+        except Exception:
+            v = None
+        if v is not None:
+            v = v[1] if v[0] == "r" else v
+            if v[0] == "v" and v[1][0] == "i":
+                return (max(0, v[1][1]), min(MAXLEN, v[1][2]))
+        return (0, MAXLEN)
+
     def atom_range_refined(self, a, at, edge):
         if a and a[0] == "L":
-            return (0, MAXLEN)
+            return self.len_atom_range(a)
         try:
             v = self.av(a, at, edge) if isinstance(a, tuple) else None
         except Exception:
@@ -1256,6 +1555,101 @@ class FnCtx:
             self._lemma_cache = {}
         return out
 
+    # ------------------------------------------------------------------ vectors built by pushes
+    def trip_count(self, lp):
+        """interval of the number of iterations of a loop driven by Iterator::next"""
+        if lp.item is None:
+            return (0, MAXLEN)
+        ad, base = self.iter_chain(lp.item[2])
+        if ad is None:
+            return (0, MAXLEN)
+        if base[0] == "agg" and base[2].startswith("std::ops::Range::"):
+            lo, hi = self.av(base[3][0], None), self.av(base[3][1], None)
+            if lo[0] == "i" and hi[0] == "i":
+                return (max(0, hi[1] - lo[2]), max(0, hi[2] - lo[1]))
+            return (0, MAXLEN)
+        bav = self.av(base, None)
+        if bav[0] == "r":
+            bav = bav[1]
+        if bav[0] == "v" and bav[1][0] == "i":
+            return (bav[1][1], bav[1][2])
+        return (0, MAXLEN)
+
+    def vec_summary(self, local):
+        """(len interval after all pushes, len lower bound at any time, elem av, mutation blocks) for a Vec local that
+        is created once and then only grown by push; None when the shape is not recognised"""
+        if not hasattr(self, "_vsum"):
+            self._vsum = {}
+        if local in self._vsum:
+            return self._vsum[local]
+        self._vsum[local] = None
+        ft = self.ft
+        from .query import loops_of, every_iteration, mutators_of
+        key = "_%d" % local
+        if not hasattr(self, "_loops"):
+            self._loops = loops_of(ft)
+        muts = [c for c in mutators_of(ft, key) if not any((c.callee or "").endswith(s_) for s_ in LEN_PRESERVING)]
+        if not muts:
+            return None
+        if not all((c.callee or "").endswith("Vec::push") for c in muts):
+            self._vsum[local] = None
+            return None
+        # creators: whole-local definitions
+        creators = []
+        for b in sorted(ft.cfg.reach):
+            for pos in ft._defs[b].get(local, []):
+                kind = ft._kinds[(b, pos, local)]
+                if kind[0] in ("assign", "call") and not (kind[0] == "assign" and kind[1]["place"]["proj"]):
+                    creators.append((b, pos))
+        if len(creators) != 1:
+            return None
+        cb, cpos = creators[0]
+        cav = self.av(ft.def_term(cb, cpos, local), cb)
+        if cav[0] != "v" or cav[1][0] != "i":
+            return None
+        lo, hi = cav[1][1], cav[1][2]
+        elem = cav[2] if cav[1][2] > 0 else BOT
+        blocks = set()
+        for c in muts:
+            blocks.add(c.block)
+            nlo, nhi = 1, 1
+            for lp in self._loops:
+                if c.block in lp.body and cb not in lp.body:
+                    tl, th = self.trip_count(lp) if lp.next else (0, MAXLEN)
+                    ev = every_iteration(ft, lp, c.block) if lp.next and c.block in lp.own else False
+                    # an early exit of the loop (break / return) lowers the count but never raises it
+                    exits = [(x, y) for x, y in lp.exits if x != lp.item_switch and ft.blocks[y]["term"]["k"] != "unreachable"]
+                    leaves_fn = all(not ft.cfg.can_reach(y, lp.head) and self._exit_leaves(y, cb) for x, y in exits)
+                    nlo = nlo * tl if (ev and (not exits or leaves_fn)) else 0
+                    nhi = nhi * th
+            lo += nlo
+            hi = min(MAXLEN, hi + nhi)
+            elem = join(elem, self.av(c.args[1], c.block))
+        res = ((lo, hi), cav[1][1], elem if elem[0] != "b" else TOP, blocks)
+        self._vsum[local] = res
+        return res
+
+    def _exit_leaves(self, y, cb):
+        """does the loop exit through block y leave the function with an error (never reaching a normal use)?"""
+        reach = self.ft.cfg.reachable_from(y)
+        # conservative: the exit path must not reach any block that is not on a path to a return through from_residual
+        for b in reach:
+            t = self.ft.blocks[b]["term"]
+            if t["k"] == "call" and t["func"].get("k") == "fn":
+                n = t["func"].get("resolved") or t["func"]["path"]
+                if "from_residual" in n:
+                    return True
+        return False
+
+    def vec_local_av(self, local, at):
+        vs = self.vec_summary(local)
+        if vs is None:
+            return None
+        (lo, hi), lo0, elem, blocks = vs
+        if at is not None and not any(self.ft.cfg.can_reach(at, b) for b in blocks) and at not in blocks:
+            return V(I(lo, hi), elem, None)
+        return V(I(lo0, hi), elem, None)
+
     # ------------------------------------------------------------------ calls
     def av_call(self, t, at, edge):
         from .models import call_model
@@ -1266,5 +1660,10 @@ class FnCtx:
         if self.checked:
             return
         self.checked = True
+        # evaluate every live call in the final state so that callees become live contexts
+        for b in sorted(self.ft.cfg.reach):
+            t = self.ft.blocks[b]["term"]
+            if t["k"] == "call" and self.block_live(b):
+                self.av(self.ft.call_term(t, b), b)
         from .obligations import check_fn
         check_fn(self)
